@@ -1,7 +1,12 @@
 #!/bin/bash
 # try_mutant.sh <patch.diff> <ID> [<ID>...] — apply a patch to /repo, run the quick checks, undo it.
+# Evidence files are saved and restored: committed evidence must come from runs on the unchanged tree.
 patch=$1; shift
 cd /verif
 git -C /repo apply "$patch" || { echo "PATCH DOES NOT APPLY"; exit 3; }
-for id in "$@"; do ./check $id --tier quick 2>&1 | tail -6; echo "exit[$id]=${PIPESTATUS[0]}"; done
+for id in "$@"; do
+  cp evidence/$id.json /tmp/evidence_$id.bak 2>/dev/null
+  ./check $id --tier quick 2>&1 | tail -6; echo "exit[$id]=${PIPESTATUS[0]}"
+  mv /tmp/evidence_$id.bak evidence/$id.json 2>/dev/null
+done
 git -C /repo checkout -- . ; git -C /repo status --short | grep -v verif_hooks | head
